@@ -470,6 +470,101 @@ static int adoptClone(Ctx &c, World &w, Model &E, node *q, int src, bool deep, n
   return s;
 }
 
+
+// ---------------------------------------------------------------------------------------------------------------
+// mpt_parse_node into an existing node: a small configuration text in the default format
+//   name = value      option          name {       section (children until the closing line)
+//   # ...             comment         }
+// The text is rendered from a drawn tree, so the elements the parser has to deliver are known.
+struct PNode { std::string name, value; bool section = false; std::vector<PNode> kids; };
+static size_t pcount(const std::vector<PNode> &v) { size_t n = v.size(); for (auto &k : v) n += pcount(k.kids); return n; }
+
+static void drawNoise(Ctx &c, std::string &out, const std::string &ind) {
+  switch (c.weighted({12, 2, 2, 1})) {
+    case 0: break;
+    case 1: out += "\n"; break;
+    case 2: out += ind + "# a = comment\n"; break;
+    default: out += "  \t\n" + ind + "#\n"; break;
+  }
+}
+static std::vector<PNode> drawPTree(Ctx &c, const std::vector<std::string> &names, int depth, size_t maxn) {
+  std::vector<PNode> v;
+  size_t n = depth ? c.range(1, 3) : c.range(1, maxn);
+  for (size_t i = 0; i < n; i++) {
+    PNode p;
+    p.name = names[c.pick(names.size())];
+    if (depth < 2 && c.chance(depth ? 50 : 90)) {
+      p.section = true;
+      if (!c.chance(40)) p.kids = drawPTree(c, names, depth + 1, maxn);  // else: empty section
+    } else {
+      size_t len = c.range(1, 5);
+      uint8_t salt = c.u8();
+      for (size_t k = 0; k < len; k++) p.value += "v0w1x2y3z"[(k * 4 + salt) % 9];
+    }
+    v.push_back(p);
+  }
+  return v;
+}
+static void renderPTree(Ctx &c, const std::vector<PNode> &v, std::string &out, int depth) {
+  std::string ind(depth * (size_t)2, ' ');
+  for (auto &p : v) {
+    drawNoise(c, out, ind);
+    if (p.section) {
+      out += ind + p.name + " {\n";
+      renderPTree(c, p.kids, out, depth + 1);
+      out += ind + "}\n";
+    } else out += ind + p.name + " = " + p.value + "\n";
+  }
+  drawNoise(c, out, ind);
+}
+struct TextSource {
+  std::string text; size_t pos = 0;
+  static int getc(void *arg) { TextSource *s = (TextSource *)arg; return s->pos < s->text.size() ? (unsigned char)s->text[s->pos++] : -2; }
+};
+// model slots (without a library node yet) for the elements the text describes; returns the sibling list
+static std::vector<int> addParsed(Model &E, const std::vector<PNode> &v, int parent) {
+  std::vector<int> l;
+  for (auto &p : v) {
+    MNode mn;
+    mn.live = true; mn.named = true; mn.name = p.name; mn.parent = parent;
+    if (!p.section) { mn.vkind = 2; mn.text = p.value; }
+    int s = (int)E.n.size();
+    E.n.push_back(mn);
+    std::vector<int> kids = addParsed(E, p.kids, s);
+    E.n[s].kids = kids;
+    l.push_back(s);
+  }
+  return l;
+}
+// gives the parser-made nodes below `first` to the model slots that wait for them (in text order; nodes that existed
+// before may stand anywhere in between, compare() decides about those)
+static void bindParsed(Ctx &c, World &w, Model &E, int parent, node *first, const std::set<const node *> &old) {
+  std::vector<int> fresh;
+  for (int k : E.n[parent].kids) if (!E.n[k].p) fresh.push_back(k);
+  size_t fi = 0, steps = 0;
+  for (node *q = first; q; q = q->next) {
+    VP_CHECK(c, ++steps <= 200, "cycle@parse_node", "children list of node %d does not end after mpt_parse_node", parent);
+    VP_CHECK(c, !__asan_region_is_poisoned(q, sizeof(node)), "dangling-link@parse_node", "after mpt_parse_node the children list of node %d runs through released memory", parent);
+    if (old.count(q)) continue;
+    VP_CHECK(c, fi < fresh.size(), "parse-shape", "after mpt_parse_node node %d has more new children than the text describes (%zu)", parent, fresh.size());
+    int s = fresh[fi++];
+    MNode &mn = E.n[s];
+    for (node *e : w.ever) VP_CHECK(c, e != q, "dangling-link@parse_node", "after mpt_parse_node the children list of node %d holds a node that was released earlier", parent);
+    const char *id = mpt_node_ident(q);
+    VP_CHECK(c, id && mn.name == id, "parse-content", "parsed child %zu of node %d is named '%.20s', the text says '%s'", fi - 1, parent, id ? id : "(none)", mn.name.c_str());
+    if (mn.vkind == 2) {
+      size_t len = 0;
+      const char *d = q->_meta ? mpt_node_data(q, &len) : 0;
+      VP_CHECK(c, d && mn.text == std::string(d, strnlen(d, len)), "parse-content", "parsed element '%s' below node %d has value '%.20s', the text says '%s'", mn.name.c_str(), parent, d ? d : "(none)", mn.text.c_str());
+    } else VP_CHECK(c, !q->_meta, "parse-content", "parsed section '%s' below node %d has a value", mn.name.c_str(), parent);
+    mn.p = q;
+    mn.mt = (metatype *)q->_meta;
+    w.ever.push_back(q);
+    bindParsed(c, w, E, s, q->children, old);
+  }
+  VP_CHECK(c, fi == fresh.size(), "parse-shape", "after mpt_parse_node node %d has %zu new children, the text describes %zu", parent, fi, fresh.size());
+}
+
 // ---------------------------------------------------------------------------------------------------------------
 static void run(Ctx &c) {
   World w;
@@ -487,13 +582,16 @@ static void run(Ctx &c) {
     std::vector<int> live = m.liveSlots();
     if (live.empty()) { if (w.created >= MaxCreated) break; newNode(c, w); continue; }
     Model E = m;
+    // (the weights stay as they are: the corpus files are decoded through them. mpt_parse_node takes the turns in which a
+    //  drawn operation has nothing to work on, see `idle`)
     size_t op = c.weighted({6, 8, 8, 8, 6, 6, 8, 8, 4, 4, 3, 3, 2, 2, 3, 2});
+    bool idle = false;
     switch (op) {
       case 0: {  // new
         if (w.created >= MaxCreated) {  // population used up: release a detached subtree instead
           std::vector<int> d;
           for (int s : live) if (m.detached(s)) d.push_back(s);
-          if (d.empty()) { c.label("skip:population"); break; }
+          if (d.empty()) { c.label("skip:population"); idle = true; break; }
           int n = pickOf(c, d);
           std::vector<int> gone;
           m.subtree(n, gone);
@@ -515,10 +613,10 @@ static void run(Ctx &c) {
       case 1: case 2: {  // list insertion by position / by name
         const char *how;
         int n = takeDetached(c, w, how);
-        if (n < 0) { c.label("skip:no-detached"); break; }
+        if (n < 0) { c.label("skip:no-detached"); idle = true; break; }
         E = m;
         std::vector<int> tg = targetsOutside(m, n);
-        if (tg.empty()) { c.label("skip:no-target"); break; }
+        if (tg.empty()) { c.label("skip:no-target"); idle = true; break; }
         int first = pickOf(c, tg), pos = drawPos(c);
         // by name: `first` is the first node of the list (mpt_node_insert hands in parent->children, nothing in /repo
         // calls mpt_node_add); with a later node and namesakes only in front of it the by-name search finds no anchor
@@ -539,10 +637,10 @@ static void run(Ctx &c) {
       case 3: case 4: {  // child insertion by position / by name
         const char *how;
         int n = takeDetached(c, w, how);
-        if (n < 0) { c.label("skip:no-detached"); break; }
+        if (n < 0) { c.label("skip:no-detached"); idle = true; break; }
         E = m;
         std::vector<int> tg = targetsOutside(m, n);
-        if (tg.empty()) { c.label("skip:no-target"); break; }
+        if (tg.empty()) { c.label("skip:no-target"); idle = true; break; }
         int par = pickOf(c, tg), pos = drawPos(c);
         const char *opn = op == 3 ? "gnode_insert" : "node_insert";
         c.logf("  %s(parent=%d, pos=%d, node=%d)", opn, par, pos, n);
@@ -559,10 +657,10 @@ static void run(Ctx &c) {
       case 5: {  // after / before: exact position
         const char *how;
         int n = takeDetached(c, w, how);
-        if (n < 0) { c.label("skip:no-detached"); break; }
+        if (n < 0) { c.label("skip:no-detached"); idle = true; break; }
         E = m;
         std::vector<int> tg = targetsOutside(m, n);
-        if (tg.empty()) { c.label("skip:no-target"); break; }
+        if (tg.empty()) { c.label("skip:no-target"); idle = true; break; }
         int at = pickOf(c, tg);
         bool after = c.flip();
         const char *opn = after ? "gnode_after" : "gnode_before";
@@ -719,7 +817,7 @@ static void run(Ctx &c) {
         int a = pickOf(c, live);
         std::vector<int> cand;
         for (int s : live) if (s != a && !m.inSubtree(s, a) && !m.inSubtree(a, s)) cand.push_back(s);
-        if (cand.empty()) { c.label("skip:no-partner"); break; }
+        if (cand.empty()) { c.label("skip:no-partner"); idle = true; break; }
         int b = pickOf(c, cand);
         if (op == 11) {
           c.logf("  gnode_swap(%d, %d)", a, b);
@@ -833,6 +931,66 @@ static void run(Ctx &c) {
         }
         break;
       }
+    }
+    if (!idle) continue;
+    {  // mpt_parse_node: parse a configuration text into a node, merging with the children it has
+      live = m.liveSlots();
+      if (live.empty()) continue;
+      E = m;
+      std::vector<int> owners;
+      for (int s : live) if (!m.n[s].kids.empty()) owners.push_back(s);
+      int R = (!owners.empty() && c.chance(170)) ? pickOf(c, owners) : pickOf(c, live);
+      // names: the alphabet, plus the names of the present children (overlap), plus one that is surely new
+      std::vector<std::string> names = {"a", "b", "c", "ab", "d"};
+      for (int k : m.n[R].kids) if (m.n[k].named && m.n[k].name.size() <= 2 && m.n[k].name.find('.') == std::string::npos) names.push_back(m.n[k].name);
+      std::string text;
+      std::vector<PNode> tree;
+      if (c.chance(70)) {  // legitimate input without elements
+        text = c.choose<const char *>({"", "\n", "\n\n", "# nothing\n", "  \n# a = 1\n\n", "#", "\t \n"});
+        c.label("parse:no-elements");
+      } else {
+        tree = drawPTree(c, names, 0, 4);
+        renderPTree(c, tree, text, 0);
+      }
+      size_t fresh = pcount(tree);
+      if (live.size() + fresh > MaxLive) { c.label("skip:parse-too-big"); continue; }
+      if (c.verbose()) { std::string shown = text; for (auto &ch : shown) if (ch == '\n') ch = '|'; c.logf("  parse_node(root=%d) text \"%s\" (%zu elements)", R, shown.c_str(), fresh); }
+      TextSource src;
+      src.text = text;
+      CObj<parser_context> pc;
+      pc->src.getc = TextSource::getc;
+      pc->src.arg = &src;
+      pc->src.line = 1;
+      pc->name.sect = 0xff;
+      pc->name.opt = 0xff;
+      int r = mpt_parse_node(m.n[R].p, pc, 0);
+      VP_CHECK(c, r >= 0, "parse-refused", "mpt_parse_node refused a well-formed text (%d, line %zu)", r, (size_t)pc->src.line);
+      // model: the parsed elements form a list of their own; what the root had moves over unless a namesake is there
+      // (children merged the same way), the rest of the old children is released (mpt_node_move + mpt_node_clear)
+      std::set<const node *> old;
+      for (int s : live) old.insert(m.n[s].p);
+      std::set<int> W;
+      std::vector<int> gone;
+      bool deep = false;
+      bool hadKids = !m.n[R].kids.empty();
+      if (fresh) {
+        std::vector<int> top = addParsed(E, tree, -1);
+        E.tops.push_back(top);
+        if (hadKids) modelMove(E, E.n[R].kids, top[0], W, deep);
+        for (int k : E.n[R].kids) E.subtree(k, gone);   // superseded by a parsed namesake
+        std::vector<int> merged = E.listOf(top[0]);
+        E.tops.erase(E.tops.begin() + E.topIndex(top[0]));
+        E.n[R].kids = merged;
+        for (int k : merged) E.n[k].parent = R;
+        bindParsed(c, w, E, R, m.n[R].p->children, old);
+      }
+      settle(c, w, E, W, gone, "parse_node");
+      c.label("op:parse_node");
+      if (fresh && hadKids) { c.label("parse:merge"); nt = true; }
+      if (!fresh && hadKids) { c.label("parse:no-elements-into-populated"); nt = true; }
+      if (!gone.empty()) c.label("parse:supersedes");
+      if (!W.empty()) c.label("parse:keeps-old");
+      if (deep) c.label("parse:merges-children");
     }
   }
 
